@@ -937,8 +937,9 @@ class Interp:
                 d.update(other)
                 continue
             kk = self.eval(k, fr)
-            if is_sym(kk):
-                raise Unsupported('dict display with symbolic key')
+            if lib.deep_sym(kk):
+                lib.store_subscript(self, d, kk, self.eval(v, fr))     # association-list semantics (forks on key equality)
+                continue
             d[lib.hashable(kk)] = self.eval(v, fr)
         return d
 
